@@ -400,7 +400,10 @@ func (b *Builder) importPackage(dir string, userRequested bool) (*tc.Package, er
 
 		// Add it.
 		if err := b.addDir(dir, userRequested); err != nil {
-			if isErrPackageNotFound(err) {
+			// A package which is only imported by others may be missing
+			// (the type checker reports what it needs); one the user asked
+			// for must exist.
+			if isErrPackageNotFound(err) && !userRequested {
 				klog.V(6).Info(err)
 				return nil, nil
 			}
